@@ -130,7 +130,7 @@ func (t *tr) globalSliceLen(e ast.Expr) (int, bool) {
 					if at, ok := cl.Type.(*ast.ArrayType); !ok || at.Len != nil {
 						return 0, false
 					}
-					if t.p.assigned[id.Name] {
+					if t.p.assigned[id.Name] || t.p.assignedInit[id.Name] {
 						t.fail("package-level slice %s is assigned in a function: its length is not a constant", id.Name)
 					}
 					for _, el := range cl.Elts {
@@ -258,6 +258,7 @@ func (t *tr) optionJoin(s *ast.IfStmt, be *ast.BinaryExpr, v *val, rest []ast.St
 	t.paramRead[v.c.pidx] = true
 	c := t.newCell("match "+v.c.cur+" with None => "+a+" | Some "+v.c.cur+" => "+b+" end", "", oLocal)
 	c.noWrite = "it may be the pointee of parameter " + v.c.hint
+	c.shares = v.c
 	t.storeVar(n1, &val{t: tZ, c: c}, false)
 	return pre + t.takeLines() + t.block(rest, k)
 }
